@@ -7,9 +7,9 @@ import FlVerif.Lemmas.CodeRule
 The translated function is a recursion on a fuel bound (`Antecedent_activation_degree.rec`) over raw expression
 objects (`Py.Deg.Expression`: a variable, a term or an operand may be `None`).  `evalE` is the same evaluation as a
 structural recursion over the object tree (first step: the fuel is eliminated); on the object tree of a loaded
-antecedent (`Py.Deg.ofANode`) it is the model `Op.degree`, provided every variable of the tree still has a term -
-Python's `if not node.variable` is true for a variable object without terms (`Variable.__len__`), and then a
-`ValueError` is raised (second step). -/
+antecedent (`Py.Deg.ofANode`) it is the model `Op.degree` (second step) - including Python's `if not node.variable`,
+which is true for a variable object without terms (`Variable.__len__`, the field `hasTerms` of the context): a
+`ValueError`, also when the variable is disabled. -/
 
 namespace Op
 open Lang Gen.Code Py.Deg
@@ -21,23 +21,23 @@ def degToPy (r : Except ErrKind (X Rat)) : Py.M (X Rat) :=
   | .error k => .error k.toPy
 
 /-- the evaluation of the translated code without fuel (operators: those of the context) -/
-def evalE (env : DegCtx Rat) (hasTerms : String → Bool) : Expression → Py.M (X Rat)
+def evalE (env : DegCtx Rat) : Expression → Py.M (X Rat)
   | .none => .error .runtime
   | .prop p =>
     match p.variable_ with
     | none => .error .value
     | some v =>
-      if hasTerms v.name then degToPy (degree env (.prop v.name p.hedges p.term_)) else .error .value
+      degToPy (degree env (.prop v.name p.hedges p.term_))
   | .op n l r =>
     if !(l.truthy && r.truthy) then .error .value
     else if n == "and" then
       match env.conj with
       | none => .error .value
-      | some f => evalE env hasTerms l >>= fun a => evalE env hasTerms r >>= fun b => .ok (f a b)
+      | some f => evalE env l >>= fun a => evalE env r >>= fun b => .ok (f a b)
     else if n == "or" then
       match env.disj with
       | none => .error .value
-      | some f => evalE env hasTerms l >>= fun a => evalE env hasTerms r >>= fun b => .ok (f a b)
+      | some f => evalE env l >>= fun a => evalE env r >>= fun b => .ok (f a b)
     else .error .value
 
 /-- agreement of a value computation with a run of the translated code: same exception, or the value is returned -/
@@ -47,43 +47,43 @@ def RetAgree (r : Py.M (X Rat)) (g : Py.M Antecedent_activation_degree.S) : Prop
   | .ok d => ∃ σ', g = .ok σ' ∧ σ'.ret = some d
 
 /-- the two hedge loops of the translated code: the fold of the model over the list, `ret` untouched -/
-theorem code_degreeLoop1 (env : DegCtx Rat) (hasTerms : String → Bool) (e : Expression)
+theorem code_degreeLoop1 (env : DegCtx Rat) (e : Expression)
     (cj dj : Option (X Rat → X Rat → X Rat)) (node : Expression) :
     ∀ (hs : List String) (σ : Antecedent_activation_degree.S),
-      ∃ σ', Antecedent_activation_degree.loop1 env hasTerms e cj dj node hs σ = .ok σ' ∧
+      ∃ σ', Antecedent_activation_degree.loop1 env e cj dj node hs σ = .ok σ' ∧
         σ'.result = hs.foldl (fun acc h => env.hedge h acc) σ.result
   | [], σ => ⟨σ, rfl, rfl⟩
   | h :: hs, σ => by
     simp only [Antecedent_activation_degree.loop1, List.foldl_cons]
-    exact code_degreeLoop1 env hasTerms e cj dj node hs { σ with hedge := h, result := env.hedge h σ.result }
+    exact code_degreeLoop1 env e cj dj node hs { σ with hedge := h, result := env.hedge h σ.result }
 
-theorem code_degreeLoop2 (env : DegCtx Rat) (hasTerms : String → Bool) (e : Expression)
+theorem code_degreeLoop2 (env : DegCtx Rat) (e : Expression)
     (cj dj : Option (X Rat → X Rat → X Rat)) (node : Expression) :
     ∀ (hs : List String) (σ : Antecedent_activation_degree.S),
-      ∃ σ', Antecedent_activation_degree.loop2 env hasTerms e cj dj node hs σ = .ok σ' ∧
+      ∃ σ', Antecedent_activation_degree.loop2 env e cj dj node hs σ = .ok σ' ∧
         σ'.result = hs.foldl (fun acc h => env.hedge h acc) σ.result
   | [], σ => ⟨σ, rfl, rfl⟩
   | h :: hs, σ => by
     simp only [Antecedent_activation_degree.loop2, List.foldl_cons]
-    exact code_degreeLoop2 env hasTerms e cj dj node hs { σ with hedge := h, result := env.hedge h σ.result }
+    exact code_degreeLoop2 env e cj dj node hs { σ with hedge := h, result := env.hedge h σ.result }
 
 theorem last_of_getLast? {α : Type} {l : List α} {x : α} (h : l.getLast? = some x) : Py.last l = .ok x := by
   simp [Py.last, h]
 
 /-- a proposition: the translated code is the model's case for propositions -/
-theorem code_degreeProp (env : DegCtx Rat) (hasTerms : String → Bool) (e : Expression)
+theorem code_degreeProp (env : DegCtx Rat) (e : Expression)
     (cj dj : Option (X Rat → X Rat → X Rat)) (fuel : Nat) (p : Proposition) (σ : Antecedent_activation_degree.S) :
-    RetAgree (evalE env hasTerms (.prop p))
-      (Antecedent_activation_degree.rec (fuel + 1) env hasTerms e cj dj (.prop p) σ) := by
+    RetAgree (evalE env (.prop p))
+      (Antecedent_activation_degree.rec (fuel + 1) env e cj dj (.prop p) σ) := by
   obtain ⟨pv, hs, pt⟩ := p
   cases pv with
   | none =>
     simp [evalE, RetAgree, Antecedent_activation_degree.rec, Expression.truthy, Expression.isProp, variableOf, varTruthy,
       bind, Except.bind]
   | some v =>
-    cases hv : hasTerms v.name
+    cases hv : env.hasTerms v.name
     · simp [evalE, RetAgree, Antecedent_activation_degree.rec, Expression.truthy, Expression.isProp, variableOf, varTruthy,
-        bind, Except.bind, hv]
+        bind, Except.bind, hv, degree, degToPy, ErrKind.toPy]
     · cases hen : env.enabled v.name
       · simp [evalE, RetAgree, Antecedent_activation_degree.rec, Expression.truthy, Expression.isProp, variableOf,
           varTruthy, bind, Except.bind, hv, hen, degree, degToPy]
@@ -108,7 +108,7 @@ theorem code_degreeProp (env : DegCtx Rat) (hasTerms : String → Bool) (e : Exp
           have hlast := last_of_getLast? hl
           by_cases hany : h = "any"
           · subst hany
-            obtain ⟨σ2, h1, h2⟩ := code_degreeLoop2 env hasTerms e cj dj (.prop ⟨some v, hs, pt⟩) hs.reverse
+            obtain ⟨σ2, h1, h2⟩ := code_degreeLoop2 env e cj dj (.prop ⟨some v, hs, pt⟩) hs.reverse
               { σ with result := X.nan }
             simp [evalE, RetAgree, Antecedent_activation_degree.rec, Expression.truthy, Expression.isProp, variableOf,
               varTruthy, bind, Except.bind, hv, hen, degree, degToPy, hedgesOf, hne, hlast, hl, h1, h2,
@@ -120,12 +120,12 @@ theorem code_degreeProp (env : DegCtx Rat) (hasTerms : String → Bool) (e : Exp
                 ErrKind.toPy]
             | some t =>
               cases hout : env.isOutput v.name
-              · obtain ⟨σ2, h1, h2⟩ := code_degreeLoop1 env hasTerms e cj dj (.prop ⟨some v, hs, some t⟩) hs.reverse
+              · obtain ⟨σ2, h1, h2⟩ := code_degreeLoop1 env e cj dj (.prop ⟨some v, hs, some t⟩) hs.reverse
                   { σ with result := env.membership v.name t }
                 simp [evalE, RetAgree, Antecedent_activation_degree.rec, Expression.truthy, Expression.isProp,
                   variableOf, varTruthy, bind, Except.bind, hv, hen, degree, degToPy, hedgesOf, termOf, hne, hlast, hl,
                   hany, hout, h1, h2, hedgesReversed]
-              · obtain ⟨σ2, h1, h2⟩ := code_degreeLoop1 env hasTerms e cj dj (.prop ⟨some v, hs, some t⟩) hs.reverse
+              · obtain ⟨σ2, h1, h2⟩ := code_degreeLoop1 env e cj dj (.prop ⟨some v, hs, some t⟩) hs.reverse
                   { σ with result := env.outDegree v.name t }
                 simp [evalE, RetAgree, Antecedent_activation_degree.rec, Expression.truthy, Expression.isProp,
                   variableOf, varTruthy, bind, Except.bind, hv, hen, degree, degToPy, hedgesOf, termOf, hne, hlast, hl,
@@ -164,14 +164,14 @@ theorem retAgree_binary (f : X Rat → X Rat → X Rat) (a b : Py.M (X Rat)) (σ
 
 /-- **the fuel is enough**: with at least `depth x` units the translated recursion evaluates the object tree `x` as
     `evalE` does (never `.fuel`) -/
-theorem code_degreeRec (env : DegCtx Rat) (hasTerms : String → Bool) (e : Expression) :
+theorem code_degreeRec (env : DegCtx Rat) (e : Expression) :
     ∀ (fuel : Nat) (x : Expression) (σ : Antecedent_activation_degree.S), x.truthy = true → depth x ≤ fuel →
-      RetAgree (evalE env hasTerms x) (Antecedent_activation_degree.rec fuel env hasTerms e env.conj env.disj x σ)
+      RetAgree (evalE env x) (Antecedent_activation_degree.rec fuel env e env.conj env.disj x σ)
   | 0, x, σ, ht, hd => by
     have := depth_pos_of_truthy ht
     omega
   | fuel + 1, .none, σ, ht, hd => by simp [Expression.truthy] at ht
-  | fuel + 1, .prop p, σ, ht, hd => code_degreeProp env hasTerms e env.conj env.disj fuel p σ
+  | fuel + 1, .prop p, σ, ht, hd => code_degreeProp env e env.conj env.disj fuel p σ
   | fuel + 1, .op n l r, σ, ht, hd => by
     cases hl : l.truthy
     · simp [evalE, RetAgree, Antecedent_activation_degree.rec, bind, Except.bind, hl]
@@ -179,15 +179,15 @@ theorem code_degreeRec (env : DegCtx Rat) (hasTerms : String → Bool) (e : Expr
     · simp [evalE, RetAgree, Antecedent_activation_degree.rec, bind, Except.bind, hl, hr]
     have hdl : depth l ≤ fuel := by simp only [depth] at hd; omega
     have hdr : depth r ≤ fuel := by simp only [depth] at hd; omega
-    have ihl := retAgree_call (code_degreeRec env hasTerms e fuel l {} hl hdl)
-    have ihr := retAgree_call (code_degreeRec env hasTerms e fuel r {} hr hdr)
+    have ihl := retAgree_call (code_degreeRec env e fuel l {} hl hdl)
+    have ihr := retAgree_call (code_degreeRec env e fuel r {} hr hdr)
     by_cases hand : n = "and"
     · subst hand
       cases hc : env.conj with
       | none => simp [evalE, RetAgree, Antecedent_activation_degree.rec, bind, Except.bind, hl, hr, hc]
       | some f =>
         rw [hc] at ihl ihr
-        have key := retAgree_binary f (evalE env hasTerms l) (evalE env hasTerms r) σ
+        have key := retAgree_binary f (evalE env l) (evalE env r) σ
         simp only [evalE, Antecedent_activation_degree.rec, truthy_op, isProp_op, isOp_op, leftOf_op, rightOf_op,
           nameOf_op, ok_bind, hl, hr, hc, ihl, ihr, Bool.not_true, Bool.false_eq_true, if_false, if_true, Bool.and_self,
           beq_self_eq_true, Option.isSome_some]
@@ -199,7 +199,7 @@ theorem code_degreeRec (env : DegCtx Rat) (hasTerms : String → Bool) (e : Expr
         | none => simp [evalE, RetAgree, Antecedent_activation_degree.rec, bind, Except.bind, hl, hr, hc]
         | some f =>
           rw [hc] at ihl ihr
-          have key := retAgree_binary f (evalE env hasTerms l) (evalE env hasTerms r) σ
+          have key := retAgree_binary f (evalE env l) (evalE env r) σ
           simp only [evalE, Antecedent_activation_degree.rec, truthy_op, isProp_op, isOp_op, leftOf_op, rightOf_op,
             nameOf_op, ok_bind, hl, hr, hc, ihl, ihr, Bool.not_true, Bool.false_eq_true, if_false, if_true,
             Bool.and_self, beq_self_eq_true, Option.isSome_some, hand']
@@ -209,78 +209,22 @@ theorem code_degreeRec (env : DegCtx Rat) (hasTerms : String → Bool) (e : Expr
 
 /-! ## on the object tree of a loaded antecedent the evaluation is the model -/
 
-/-- every exception of the model is a `ValueError` -/
-theorem degree_error_value (c : DegCtx Rat) : ∀ (a : ANode) (k : ErrKind), degree c a = .error k → k = .value
-  | .prop v hs t, k, h => by
-    simp only [degree] at h
-    split at h
-    · cases h
-    · split at h
-      · cases h
-      · cases t with
-        | none => cases h; rfl
-        | some t => cases h
-  | .op n l r, k, h => by
-    have ihl := degree_error_value c l
-    have ihr := degree_error_value c r
-    simp only [degree] at h
-    split at h
-    · cases hc : c.conj with
-      | none => rw [hc] at h; cases h; rfl
-      | some f =>
-        rw [hc] at h
-        cases hl : degree c l with
-        | error kl => rw [hl] at h; cases hr : degree c r <;> (rw [hr] at h; cases h; exact ihl _ hl)
-        | ok x =>
-          rw [hl] at h
-          cases hr : degree c r with
-          | error kr => rw [hr] at h; cases h; exact ihr _ hr
-          | ok y => rw [hr] at h; cases h
-    · split at h
-      · cases hc : c.disj with
-        | none => rw [hc] at h; cases h; rfl
-        | some f =>
-          rw [hc] at h
-          cases hl : degree c l with
-          | error kl => rw [hl] at h; cases hr : degree c r <;> (rw [hr] at h; cases h; exact ihl _ hl)
-          | ok x =>
-            rw [hl] at h
-            cases hr : degree c r with
-            | error kr => rw [hr] at h; cases h; exact ihr _ hr
-            | ok y => rw [hr] at h; cases h
-      · cases h; rfl
-
 theorem truthy_ofANode (a : ANode) : (ofANode a).truthy = true := by cases a <;> rfl
 
 theorem depth_ofANode_pos (a : ANode) : 0 < depth (ofANode a) := depth_pos_of_truthy (truthy_ofANode a)
 
-/-- **on a loaded antecedent**: when every variable of the tree has a term, `evalE` is the model; when one of them
-    has none, a `ValueError` is raised (whatever else the tree contains: every other exception of the evaluation is
-    a `ValueError` as well, and every node is visited) -/
-theorem evalE_ofANode (env : DegCtx Rat) (hasTerms : String → Bool) : ∀ a : ANode,
-    evalE env hasTerms (ofANode a) = if (varsOf a).all hasTerms then degToPy (degree env a) else .error .value
-  | .prop v hs t => by
-    cases hv : hasTerms v <;> simp [evalE, ofANode, varsOf, hv]
+/-- **on a loaded antecedent** `evalE` is the model -/
+theorem evalE_ofANode (env : DegCtx Rat) : ∀ a : ANode, evalE env (ofANode a) = degToPy (degree env a)
+  | .prop v hs t => by simp [evalE, ofANode]
   | .op n l r => by
-    have ihl := evalE_ofANode env hasTerms l
-    have ihr := evalE_ofANode env hasTerms r
+    have ihl := evalE_ofANode env l
+    have ihr := evalE_ofANode env r
     have key : ∀ (f : X Rat → X Rat → X Rat) (M : Except ErrKind (X Rat)),
         degToPy M = (degToPy (degree env l) >>= fun a => degToPy (degree env r) >>= fun b => .ok (f a b)) →
-        (evalE env hasTerms (ofANode l) >>= fun a => evalE env hasTerms (ofANode r) >>= fun b => .ok (f a b)) =
-        if (varsOf l ++ varsOf r).all hasTerms then degToPy M else .error .value := by
+        (evalE env (ofANode l) >>= fun a => evalE env (ofANode r) >>= fun b => .ok (f a b)) = degToPy M := by
       intro f M hM
-      rw [ihl, ihr, List.all_append, hM]
-      cases hal : (varsOf l).all hasTerms
-      · simp [bind, Except.bind]
-      · cases har : (varsOf r).all hasTerms
-        · cases hdl : degree env l with
-          | error k =>
-            have := degree_error_value env l k hdl
-            subst this
-            simp [bind, Except.bind, degToPy, ErrKind.toPy]
-          | ok x => simp [bind, Except.bind, degToPy]
-        · simp
-    simp only [ofANode, evalE, truthy_ofANode, Bool.and_self, Bool.not_true, Bool.false_eq_true, if_false, varsOf, degree,
+      rw [ihl, ihr, hM]
+    simp only [ofANode, evalE, truthy_ofANode, Bool.and_self, Bool.not_true, Bool.false_eq_true, if_false, degree,
       beq_iff_eq]
     by_cases hand : n = "and"
     · simp only [hand, if_true]
@@ -305,34 +249,30 @@ theorem evalE_ofANode (env : DegCtx Rat) (hasTerms : String → Bool) : ∀ a : 
 
 /-- `Antecedent.activation_degree(conjunction, disjunction)` on a loaded antecedent (the call from `Rule.activate_with`:
     `node` is `None`, the tree is `self.expression`) -/
-theorem code_activationDegree_loaded (c : DegCtx Rat) (hasTerms : String → Bool) (a : ANode) :
-    if (varsOf a).all hasTerms then
-      match degree c a with
-      | .error k => Antecedent_activation_degree.run c hasTerms (ofANode a) c.conj c.disj .none {} = .error k.toPy
-      | .ok d => ∃ σ, Antecedent_activation_degree.run c hasTerms (ofANode a) c.conj c.disj .none {} = .ok σ ∧
-          σ.ret = some d
-    else Antecedent_activation_degree.run c hasTerms (ofANode a) c.conj c.disj .none {} = .error .value := by
+theorem code_activationDegree_loaded (c : DegCtx Rat) (a : ANode) :
+    match degree c a with
+    | .error k => Antecedent_activation_degree.run c (ofANode a) c.conj c.disj .none {} = .error k.toPy
+    | .ok d => ∃ σ, Antecedent_activation_degree.run c (ofANode a) c.conj c.disj .none {} = .ok σ ∧
+        σ.ret = some d := by
   have hrec := retAgree_call
-    (code_degreeRec c hasTerms (ofANode a) (depth (ofANode a)) (ofANode a) {} (truthy_ofANode a) (Nat.le_refl _))
+    (code_degreeRec c (ofANode a) (depth (ofANode a)) (ofANode a) {} (truthy_ofANode a) (Nat.le_refl _))
   rw [evalE_ofANode] at hrec
-  have hrun : Antecedent_activation_degree.run c hasTerms (ofANode a) c.conj c.disj .none {} =
-      ((Antecedent_activation_degree.rec (depth (ofANode a)) c hasTerms (ofANode a) c.conj c.disj (ofANode a) {}
+  have hrun : Antecedent_activation_degree.run c (ofANode a) c.conj c.disj .none {} =
+      ((Antecedent_activation_degree.rec (depth (ofANode a)) c (ofANode a) c.conj c.disj (ofANode a) {}
         >>= fun r => Py.deref r.ret) >>= fun v1 => .ok (some v1)) >>= fun v => Except.ok { ({} : Antecedent_activation_degree.S) with ret := v } := by
     have h0 : depth Expression.none = 0 := rfl
     have h1 : Expression.none.truthy = false := rfl
     simp only [Antecedent_activation_degree.run, h0, h1, Nat.add_zero, Antecedent_activation_degree.rec,
       truthy_ofANode, Bool.not_false, if_true]
   rw [hrun, hrec]
-  cases hall : (varsOf a).all hasTerms
-  · simp [bind, Except.bind]
-  · cases hd : degree c a with
-    | error k => simp [degToPy, bind, Except.bind]
-    | ok d => simp [degToPy, bind, Except.bind]
+  cases hd : degree c a with
+  | error k => simp [degToPy, bind, Except.bind]
+  | ok d => simp [degToPy, bind, Except.bind]
 
 /-- an antecedent that is not loaded (`self.expression` is `None`): `RuntimeError` -/
-theorem code_activationDegree_notLoaded (c : DegCtx Rat) (hasTerms : String → Bool)
+theorem code_activationDegree_notLoaded (c : DegCtx Rat)
     (cj dj : Option (X Rat → X Rat → X Rat)) :
-    Antecedent_activation_degree.run c hasTerms .none cj dj .none {} = .error .runtime := by
+    Antecedent_activation_degree.run c .none cj dj .none {} = .error .runtime := by
   have h0 : depth Expression.none = 0 := rfl
   have h1 : Expression.none.truthy = false := rfl
   simp only [Antecedent_activation_degree.run, h0, h1, Nat.add_zero, Antecedent_activation_degree.rec, Bool.not_false,
@@ -340,11 +280,11 @@ theorem code_activationDegree_notLoaded (c : DegCtx Rat) (hasTerms : String → 
 
 /-- object trees that `Antecedent.load` does not build: a proposition without a variable and an operator with a
     missing operand raise `ValueError` (whatever `self.expression` is) -/
-theorem code_activationDegree_defects (c : DegCtx Rat) (hasTerms : String → Bool) (e : Expression)
+theorem code_activationDegree_defects (c : DegCtx Rat) (e : Expression)
     (cj dj : Option (X Rat → X Rat → X Rat)) :
-    (∀ hs t, Antecedent_activation_degree.run c hasTerms e cj dj (.prop ⟨none, hs, t⟩) {} = .error .value) ∧
-    (∀ n r, Antecedent_activation_degree.run c hasTerms e cj dj (.op n .none r) {} = .error .value) ∧
-    (∀ n l, Antecedent_activation_degree.run c hasTerms e cj dj (.op n l .none) {} = .error .value) := by
+    (∀ hs t, Antecedent_activation_degree.run c e cj dj (.prop ⟨none, hs, t⟩) {} = .error .value) ∧
+    (∀ n r, Antecedent_activation_degree.run c e cj dj (.op n .none r) {} = .error .value) ∧
+    (∀ n l, Antecedent_activation_degree.run c e cj dj (.op n l .none) {} = .error .value) := by
   refine ⟨fun hs t => ?_, fun n r => ?_, fun n l => ?_⟩
   · simp [Antecedent_activation_degree.run, Antecedent_activation_degree.rec, Expression.truthy, Expression.isProp,
       variableOf, varTruthy, bind, Except.bind]
